@@ -13,7 +13,7 @@ if ! git -C "$D/r" apply "$PATCH"; then echo "PATCH DOES NOT APPLY"; exit 2; fi
 if ! (cd "$D/r" && go build ./... ); then echo "MUTANT DOES NOT BUILD"; exit 2; fi
 if (cd "$D/r" && go test -vet=off -count=1 ./... >"$D/suite.log" 2>&1); then echo "suite: PASS (mutant survives the pinned tests)"; else echo "suite: FAIL (mutant is killed by the pinned tests)"; tail -5 "$D/suite.log"; fi
 for P in "$@"; do
-  out=$(cd /verif && VERIF_REPO="$D/r" VERIF_NO_EVIDENCE=1 ./check "$P" --tier "${TIER:-quick}" 2>&1); rc=$?
+  out=$(cd /verif && VERIF_REPO="$D/r" VERIF_NO_EVIDENCE=1 VERIF_FINDINGS_DIR="$D/findings" ./check "$P" --tier "${TIER:-quick}" 2>&1); rc=$?
   echo "== $P rc=$rc: $(echo "$out" | grep -E 'VIOLATION|^OK|INCONCLUSIVE' | head -2)"
   if [ "${VERBOSE:-0}" = 1 ]; then echo "$out" | tail -15 | cut -c1-600; fi
 done
